@@ -53,6 +53,11 @@ func implGenIkesa(s suite, nonce, secret []byte, si, sr uint64) (string, *securi
 		} else {
 			n2, s2 = exact(nonce), exact(secret)
 		}
+		if len(nonce)%3 == 1 && len(nonce) > 0 && len(secret) > 0 {
+			// the object was already keyed for an earlier attempt (IKE_SA_INIT repeated after COOKIE / INVALID_KE_PAYLOAD):
+			// keying it again must replace every key and every ready-to-use object
+			_ = k.GenerateKeyForIKESA(append([]byte{0x5a}, secret...), append([]byte{0xa5}, nonce...), sr^0x1111, si^0x2222)
+		}
 		if err := k.GenerateKeyForIKESA(n2, s2, si, sr); err != nil {
 			k = nil
 			return "err"
@@ -184,7 +189,8 @@ func runC07(c *Ctx) error {
 			}
 		}
 	}
-	return nil
+	// the Diffie-Hellman step in front of the derivation: two parties through NewIKESAKey, incl. shared secrets with leading zero octets
+	return evalIkesaPairs(c, nil, c.N(4, 40))
 }
 
 func beU64(b []byte) uint64 {
@@ -291,6 +297,43 @@ func runC08(c *Ctx) error {
 		}
 		if err := evalC08History(c, s, ks, steps); err != nil {
 			return err
+		}
+	}
+	// IKE SA objects keyed by the library itself, some of them keyed TWICE (IKE_SA_INIT repeated on one context): the
+	// Child SA keys must be the slices of prf+ under the SK_d the object holds now, i.e. what a fresh copy gives
+	for h, nh := 0, c.N(24, 300); h < nh; h++ {
+		s := genSuite(r)
+		obj := newSA(s)
+		rounds := 1 + h%2
+		for t := 0; t < rounds; t++ {
+			if err := obj.GenerateKeyForIKESA(r.Bytes(r.Range(8, 64)), r.Bytes(r.Range(16, 256)), r.U64(), r.U64()); err != nil {
+				return err
+			}
+		}
+		ks := keyset{obj.SK_d, obj.SK_ai, obj.SK_ar, obj.SK_ei, obj.SK_er, obj.SK_pi, obj.SK_pr}
+		fresh, err := saFromKeys(s, ks.d, ks.ai, ks.ar, ks.ei, ks.er, ks.pi, ks.pr)
+		if err != nil {
+			return err
+		}
+		if _, err := c.M.Ask(fmt.Sprintf("(sa_keys h %s %s)", s, ks.sx())); err != nil {
+			return err
+		}
+		for k := 0; k < 3; k++ {
+			e, i, nonce := encrIDs[r.Intn(3)], integs[r.Intn(4)], r.Bytes(r.Pick([]int{0, 16, 32, 64}))
+			cs := fmt.Sprintf("(rekeyed-child rounds=%d %s (%s) %s %s %s)", rounds, s, ks.sx(), e, i, hx(nonce))
+			got, want := implChild(obj, e, i, nonce), implChild(fresh, e, i, nonce)
+			c.R.ImplRuns += 2
+			c.R.Count(cs, true, fmt.Sprintf("library-keyed:rounds=%d", rounds))
+			model, err := c.M.Ask(fmt.Sprintf("(child h %s %s %s)", e, i, hx(nonce)))
+			if err != nil {
+				return err
+			}
+			if want != model {
+				c.R.Add(Finding{Kind: "correspondence", What: "GenerateKeyForChildSA differs from Impl.generate_key_for_childsa", Case: cs, Expected: model, Observed: want})
+			}
+			if got != want {
+				c.R.Add(Finding{Kind: "instance", What: "Child SA keys of an IKE SA object keyed by GenerateKeyForIKESA differ from those of a fresh copy holding the same SK_d", Case: cs, Expected: want, Observed: got})
+			}
 		}
 	}
 	return nil
